@@ -387,5 +387,6 @@ pub fn enumerated(index: usize, singles_only: bool) -> Option<C11Scenario> {
         alt_hash_seed: 211 + index as u64,
         keep_bad_in_reference: false,
         maybe_bad: Vec::new(),
+        trace_logs: false,
     })
 }
